@@ -48,6 +48,7 @@ type Spec struct {
 	Outside   string            `json:"outside"`
 	Assume    []string          `json:"assumptions"`
 	Clock     []string          `json:"clock"` // package dirs whose time.Now() calls are rewritten for native replay
+	Ghost     bool              `json:"ghost"` // instrument message/pool natively with the ownership ghost state
 	Sched     []string          `json:"sched"` // package dirs instrumented with scheduling points for native schedule replay
 }
 
